@@ -440,8 +440,21 @@ class OpGen:
         feasible = (["prune_root"] * 2 if single else []) + (["drop_set"] if sets else []) + ["leaf_cycle"] + (["family_then_sibling"] * 2 if families and plain else [])
         if single and plain:
             feasible += ["family_migrates"] * 2
+        feasible += ["twin_values"] * 2
         kind = rng.choice(feasible)
         ops: list = []
+        if kind == "twin_values":
+            # the same compound VALUE text goes to two places, then one of the two is edited from the inside: the other
+            # (and whatever the process keeps of that text) must not follow
+            a, b = rng.sample(["tw1", "tw2", "tw3"], 2)
+            v = rng.choice(["{ }", "{ q = 1; }", "{\n  q = 1;\n}", "{ q = { r = 1; }; }"])
+            ops.append({"op": "set", "path": npath(depth, (a,)), "value": v})
+            ops.append({"op": "set", "path": npath(depth, (b,)), "value": v})
+            inner = ("q", "r2") if v.startswith("{ q = {") and rng.random() < 0.5 else (rng.choice(["k", "nu"]),)
+            ops.append({"op": "set", "path": npath(depth, (a,) + inner), "value": self.fresh_value()})
+            if rng.random() < 0.5:
+                ops.append({"op": "rm", "path": npath(depth, (b, "q"))} if "q" in v and rng.random() < 0.5 else {"op": "set", "path": npath(depth, (b, "zz")), "value": self.fresh_value()})
+            return ops
         if kind == "family_migrates":
             # an attrpath family gets a new member (appended at the end), loses its original one, and then a plain
             # binding that stands between the two positions is removed
